@@ -61,7 +61,7 @@ def main():
             res["tests_diff"] = sorted(set(mut_fail) ^ set(base_fail))
         res["checks"] = {}
         for p in props:
-            c = sh(f"cd {V} && ./check {p} --tier {tier}")
+            c = sh(f"cd {V} && timeout 1500 ./check {p} --tier {tier}")
             lines = [l for l in c.stdout.splitlines() if l.startswith(("VIOLATION", "KNOWN-FINDING", "  broken", "  failing input", "  spec", "  implementation"))]
             res["checks"][p] = {"exit": c.returncode, "lines": [l[:300] for l in lines][:8]}
     finally:
